@@ -75,13 +75,22 @@ def body(run, a):
         p = subprocess.run(['cargo', 'kani', 'playback', '-Z', 'concrete-playback', '--', 'kani_concrete_playback'], cwd=rdir, env=env,
                            stdout=subprocess.PIPE, stderr=subprocess.STDOUT, text=True, timeout=1200)
         vals = re.findall(r'// (\d+)\n', open(os.path.join(rdir, 'src', 'lib.rs')).read())
-        reproduced = 'test result: FAILED' in p.stdout
+        failed_checks = re.findall(r'Failed Checks: ([^\n]*)', o1)
         msg = re.search(r"panicked at [^\n]*\n([^\n]*)", p.stdout)
+        native_msg = msg.group(1).strip() if msg else ''
+        # Kani's playback can fail to rebuild the input of a harness whose failing trace ends before all kani::any() calls were
+        # made ("Expected N bytes in the following det vals vec"): that is a tool limitation, not a reproduction
+        playback_broken = 'det vals' in native_msg or 'test result:' not in p.stdout
+        reproduced = 'test result: FAILED' in p.stdout and not playback_broken
         key = 'ppv-null:' + h
-        what = 'ppv-null %s fails: %s (counterexample values %s)' % (h, (msg.group(1).strip() if msg else 'assertion')[:100], vals[:4])
+        what = 'ppv-null %s fails: %s (counterexample values %s)' % (h, (failed_checks[0] if failed_checks else native_msg or 'assertion')[:140], vals[:4])
         if reproduced:
-            path = run.write_replay(key, {'harness': h, 'values': vals, 'native': p.stdout[-1500:], 'kind': 'kani-playback'})
-            run.violation(key, what, path)
+            path = run.write_replay(key, {'harness': h, 'values': vals, 'failed_checks': failed_checks[:4], 'native': p.stdout[-1500:], 'kind': 'kani-playback'})
+            run.violation(key, what + ' (native playback: %s)' % native_msg[:80], path)
+        elif playback_broken and rc1 != 0 and failed_checks:
+            # decided twice by the solver on the compiled code (full run + single-harness run); the playback tool could not rebuild the input
+            path = run.write_replay(key, {'harness': h, 'values': vals, 'failed_checks': failed_checks[:4], 'playback': 'unavailable: ' + native_msg[:200], 'kind': 'kani'})
+            run.violation(key, what + ' (Kani playback could not rebuild the input; failure decided by CBMC in two independent runs)', path)
         else:
             run.inconclusive.append('kani counterexample not reproduced by concrete playback: ' + h)
         shutil.rmtree(rdir, ignore_errors=True)
